@@ -38,7 +38,9 @@ def main():
     lock = threading.Lock()
     def worker(k):
         repo, build = "/tmp/mrepo%d" % k, "/tmp/mbuild%d" % k
-        sh("mkdir -p %s && rsync -a --delete --exclude _build --exclude .git /repo/ %s/" % (repo, repo))
+        # content-compared copy WITHOUT preserving modification times: a file that a previous campaign patched and reverted keeps its new mtime, so that the
+        # object built from the patched version is rebuilt (rsync -a would put the old mtime back and leave a stale, still-patched object in the build dir)
+        sh("mkdir -p %s && rsync -rl --checksum --delete --exclude _build --exclude .git /repo/ %s/" % (repo, repo))
         while True:
             try: it = q.get_nowait()
             except queue.Empty: return
@@ -63,6 +65,7 @@ def main():
                         try: shutil.copy(viols[0][1], os.path.join(it["dir"], "replay.json"))
                         except Exception: pass
                 sh("cd %s && patch -R -p1 --no-backup-if-mismatch < %s" % (repo, it["diff"]))
+                sh("cd %s && grep '^+++ ' %s | sed 's|^+++ [ab]/||; s|\t.*||' | xargs -r touch" % (repo, it["diff"]))   # reverted files are newer than anything built from their patched version
             with lock:
                 open(out, "a").write(json.dumps({k2: v for k2, v in res.items() if k2 != "dir"}) + "\n")
                 print(json.dumps(dict(name=res["name"], prop=res["prop"], detected=res.get("detected"), classes=res.get("classes"), wall=res.get("wall_s"), error=res.get("error"))), flush=True)
